@@ -2,6 +2,7 @@ import BV.Model.FFI
 import BV.Model.FFIStream
 import BV.Model.FFIEntry
 import BV.Drive.Util
+import BV.Drive.Stream
 /-
 Line protocol of the `ffi` engine (leading token `ffi` stripped by `Drive.lean`).
 
@@ -26,6 +27,12 @@ Line protocol of the `ffi` engine (leading token `ffi` stripped by `Drive.lean`)
   D <quality> <lgwin> <size>
                         BrotliEncoderSetCustomDictionary(size, …) on a fresh instance with that quality / lgwin:
                         the fields of the stream machine afterwards → <is_initialized_>:<catable>:<appendable>:<quality>:<lgwin>:<dictionary copied 0|1>
+  H <tok> <tok> …       a WHOLE history of one instance through `ffiRun` (BV/Model/FFIStream.lean), the payload encoder
+                        being the recorded answers of the C instance's own invocations, in order (one oracle for the line):
+                        `P:<id>:<v>` SetParameter, `T:<size>` TakeOutput, `M` HasMoreOutput, `F` IsFinished,
+                        `<flags>~C:<op>:<hex>+0:<cap>[:<answers>]` CompressStream (token grammar of the `stream` engine;
+                        flags = total_out pointer passed + 2 * null next_in + 4 * null next_out)
+                        → <cell.delivered,…|->:<#delivered>:<FNV-1a of the delivered bytes>:<total_out_>:<is_finished>:<has_more> | unwound
 Addresses are numbers; `n` = null.
 -/
 namespace BV.Drive.FFI
@@ -67,8 +74,52 @@ def stateOfCode (c : Nat) : Option BV.Stream.SState :=
   | 0 => some .processing | 1 => some .flushRequested | 2 => some .finished | 3 => some .metadataHead | 4 => some .metadataBody
   | _ => none
 
+/-- one token of an `H` line: the call, the recorded answers of its invocations, the memory it reads -/
+def parseH (idx : Nat) (tok : String) : Option (FfiCall × List BV.Stream.Ans × List (Nat × List Nat)) :=
+  if tok = "M" then some (.hasMore, [], []) else if tok = "F" then some (.isFinished, [], []) else
+  match tok.splitOn "~" with
+  | [d, c] =>
+    match BV.Drive.Stream.parseCall true c with
+    | some (.stream op input cap, as) =>
+      let f := natArg d
+      let base := 1000000 * (idx + 1)
+      some (.stream op ⟨input.length, if f / 2 % 2 = 1 then none else some base, cap,
+                        if f / 4 % 2 = 1 then none else some (base + 500000), f % 2 = 1, 57005, 0⟩, as, [(base, input)])
+    | _ => none
+  | [c] =>
+    match BV.Drive.Stream.parseCall true c with
+    | some (.setParam id v, _) => some (.setParam id v, [], [])
+    | some (.take n, _) => some (.take n, [], [])
+    | _ => none
+  | _ => none
+
+def parseHs : Nat → List String → Option (List FfiCall × List BV.Stream.Ans × List (Nat × List Nat))
+  | _, [] => some ([], [], [])
+  | i, t :: ts =>
+    match parseH i t, parseHs (i + 1) ts with
+    | some (c, a, m), some (cs, as, ms) => some (c :: cs, a ++ as, m ++ ms)
+    | _, _ => none
+
+def handleH (toks : List String) : String :=
+  match parseHs 0 toks with
+  | none => "bad-op"
+  | some (calls, answers, tbl) =>
+    let mem : Mem := fun p n => match tbl.find? (fun x => x.1 == p) with
+      | some (_, bs) => bs.take n
+      | none => []
+    let o : BV.Stream.Oracle := fun k _ => answers.getD k {}
+    let fuel := 8 * (tbl.foldl (fun m x => m + x.2.length) 0)
+                + 8 * (calls.foldl (fun m c => match c with | .stream _ c => max m c.availOut | _ => m) 0)
+                + (answers.foldl (fun m a => m + a.bits.length) 0) + 8192
+    match ffiRun o fuel mem calls BV.Stream.St.new {} with
+    | none => "unwound"
+    | some (s, seen) =>
+      let cells := if seen.cells.isEmpty then "-" else ",".intercalate (seen.cells.map (fun x => s!"{x.1}.{x.2}"))
+      s!"{cells}:{seen.delivered.length}:{BV.Drive.Stream.fnv1a seen.delivered}:{s.totalOut}:{ffiIsFinished s}:{ffiHasMoreOutput s}"
+
 def handle (args : List String) : String :=
   match args with
+  | "H" :: toks => handleH toks
   | "S" :: calls => " ".intercalate (calls.map handleCall)
   | ["V"] => toString ffiVersion
   | ["X", n] => match n.toNat? with
